@@ -32,6 +32,8 @@ THEOREMS = [
     "SleapVerif.C06.refine_crop_index",
     "SleapVerif.C06.refine_bounded_partial",
     "SleapVerif.C06.refine_bounded_of_nonneg_map",
+    "SleapVerif.C06.refine_displacement_le",
+    "SleapVerif.C06.local_peaks_refined_fields",
     "SleapVerif.C06.refine_unbounded_counterexample",
 ]
 
@@ -86,7 +88,11 @@ THRS = [(0.2, Fraction(1, 5)), (0.0, Fraction(0)), (0.125, Fraction(1, 8)), (0.5
 
 def gen_case(rng):
     shape = rng.choice(["1x1", "1xN", "Nx1", "small", "small", "mid", "mid", "mid"])
-    if shape == "1x1":
+    if rng.random() < 0.04:
+        shape = "large"
+    if shape == "large":
+        h, w = rng.randrange(11, 25), rng.randrange(11, 25)
+    elif shape == "1x1":
         h, w = 1, 1
     elif shape == "1xN":
         h, w = 1, rng.randrange(2, 9)
@@ -97,6 +103,8 @@ def gen_case(rng):
     else:
         h, w = rng.randrange(4, 11), rng.randrange(4, 11)
     S, C = rng.randrange(1, 4), rng.randrange(1, 4)
+    if rng.random() < 0.05:
+        S, C = rng.randrange(1, 6), rng.randrange(1, 6)
     den = rng.choice([8, 8, 16])
     kinds = [rng.choice(KINDS) for _ in range(S * C)] if rng.random() < 0.5 else [rng.choice(KINDS)] * (S * C)
     maps = [gen_map(rng, h, w, k, den) for k in kinds]
@@ -111,8 +119,19 @@ def gen_case(rng):
         # float64-only structure: differences far below float32 resolution
         maps, den = [float64_special(rng, h, w, [[v / den for v in row] for row in m]) for m in maps], 1
         kind = "f64special"
-    return {"S": S, "C": C, "h": h, "w": w, "den": den, "maps": maps, "thr": pick_thr(rng, dtype), "p": p,
+    thr = pick_thr(rng, dtype)
+    if dtype in ("f32", "f64") and rng.random() < 0.06:
+        # values around kornia's pad constant -1e4 (and +1e4); thresholds at and BELOW -1e4 (the latter is the excluded
+        # region of local_peaks_iff's hypothesis -big <= thr: finding F-C06pad)
+        lv = rng.sample(BIG_LEVELS, rng.randrange(2, 6))
+        maps, den, kind = [[[rng.choice(lv) for _ in range(w)] for _ in range(h)] for _ in range(S * C)], 2, "bigval"
+        thr = rng.choice([-10000.0, -10000.0, -15000.0, -20000.0, -9999.5, 0.0])
+    return {"S": S, "C": C, "h": h, "w": w, "den": den, "maps": maps, "thr": thr, "p": p,
             "dtype": dtype, "kind": kind, "shape": shape}
+
+
+# twice the value (den = 2): -20000, -15000, -10000.5, -10000, -9999.5, -9000, 0, 1, 9999.5, 10000, 10000.5
+BIG_LEVELS = [-40000, -30000, -20001, -20000, -19999, -18000, 0, 2, 19999, 20000, 20001]
 
 
 HALF = ("f16", "bf16")
@@ -195,7 +214,7 @@ class Impl:
         self.last_dtypes = tuple(str(t.dtype).replace("torch.", "") for t in (pts, vals, si, ci))
         if not (tuple(pts.shape) == (vals.shape[0], 2) and si.shape == vals.shape == ci.shape):
             return ("badshape", tuple(pts.shape), tuple(vals.shape), tuple(si.shape), tuple(ci.shape))
-        return [(float(p[0]), float(p[1]), Fraction(float(v)), int(s), int(c))
+        return [(float(p[0]), float(p[1]), fr(v), int(s), int(c))
                 for p, v, s, c in zip(pts.tolist(), vals.tolist(), si.tolist(), ci.tolist())]
 
     def rough(self, cms, thr):
@@ -240,6 +259,12 @@ def parse_model(line):
 
 
 # ------------------------------------------------------------------ oracle (independent of the model)
+def fr(v):
+    """exact value of a float; non-finite values stay floats"""
+    v = float(v)
+    return Fraction(v) if v == v and abs(v) != float("inf") else v
+
+
 def brute_peaks(np, a, thr32):
     """strict 8-neighbour local maxima above thr, in (sample,row,col,channel) order"""
     S, C, h, w = a.shape
@@ -258,7 +283,7 @@ def brute_peaks(np, a, thr32):
                             if (di or dj) and 0 <= ii < h and 0 <= jj < w and not v > a[s, c, ii, jj]:
                                 ok = False
                     if ok:
-                        out.append((float(j), float(i), Fraction(float(v)), s, c))
+                        out.append((float(j), float(i), fr(v), s, c))
     return out
 
 
@@ -304,8 +329,37 @@ def oracle_rough(np, a, thr, got, dtype="f32"):
     if got != want:
         missing = [p for p in want if p not in got]
         extra = [p for p in got if p not in want]
+        oracle_rough.sigs = rough_signatures(np, a, missing, extra, dtype)
         return f"missing={missing[:3]} extra={extra[:3]} order_only={not missing and not extra}"
+    oracle_rough.sigs = []
     return None
+
+
+oracle_rough.sigs = []
+PAD = 10000.0  # kornia's max_val
+
+
+def rough_signatures(np, a, missing, extra, dtype):
+    """structural predicates of a rough-detector failure (matched against known_findings signatures):
+    * `peak_below_pad_constant` (F-C06pad): nothing extra, and every missing peak is a BORDER cell holding a value <= -1e4
+      (the dilation pads the map with -1e4, so such a cell is never above its padding; only reachable with thr < -1e4);
+    * `value_absorbs_pad_constant` (F-C06huge): nothing extra, and for every missing peak `v - 1e4` rounds back to `v` in the
+      map's dtype (|v| >= 2^38 in float32, 2^67 in float64, +inf): the centre entry of the dilation equals the centre."""
+    if extra or not missing:
+        return []
+    S, C, h, w = a.shape
+    sigs = []
+    if all(q[2] <= -PAD and (q[0] in (0.0, w - 1.0) or q[1] in (0.0, h - 1.0)) for q in missing):
+        sigs.append("peak_below_pad_constant")
+    npdt = {"f64": np.float64, "f32": np.float32, "f16": np.float16}.get(dtype)
+    if npdt is not None:
+        def absorbs(v):
+            v = npdt(float(v))
+            with np.errstate(all="ignore"):
+                return bool(npdt(v - npdt(PAD)) == v)
+        if all(absorbs(q[2]) for q in missing):
+            sigs.append("value_absorbs_pad_constant")
+    return sigs
 
 
 def exact_offsets(a2, x, y, p):
@@ -404,12 +458,16 @@ def run_case(chk, I, case, mline, where="generated"):
              {"shape": [case["S"], case["C"], case["h"], case["w"]], "thr": thr, "p": p, "dtype": dtype,
               "kind": case.get("kind"), "n_peaks": len(m_rough)} if nontrivial and case["h"] * case["w"] < 200 else None,
              tags=[f"shape:{case.get('shape', where)}", f"p:{p}", f"peaks:{min(len(m_rough), 5)}{'+' if len(m_rough) >= 5 else ''}",
-                   "neg" if has_neg else "nonneg", f"dtype:{dtype}"] + ([f"kind:{case['kind']}"] if case.get("kind") in ("f64special", "big_half") else []))
+                   "neg" if has_neg else "nonneg", f"dtype:{dtype}", f"thr:{thr}", "thr<0" if thr < 0 else "thr>=0",
+                   "S>1&C>1" if case["S"] > 1 and case["C"] > 1 else "S=1|C=1"]
+             + ([f"kind:{case['kind']}"] if case.get("kind") in ("f64special", "big_half", "bigval") else []))
     if rough != m_rough:
         chk.disagree("find_local_peaks_rough == Peaks.localPeaksRough", small, str(rough)[:600], str(m_rough)[:600])
     why = oracle_rough(np, a, thr, rough, dtype)
     if why:
-        chk.fail(f"C06 fails on find_local_peaks_rough ({TORCH_DTYPE[dtype]} maps): {why}", small, str(rough)[:600])
+        chk.fail(f"C06 fails on find_local_peaks_rough ({TORCH_DTYPE[dtype]} maps): {why}", small, str(rough)[:600], oracle_rough.sigs)
+    if thr < -PAD:
+        chk.extra["excluded_region_thr_below_pad"] = chk.extra.get("excluded_region_thr_below_pad", 0) + 1
 
     none_ref = I.full(cms, thr, None, 5)
     if none_ref != rough:
@@ -417,6 +475,7 @@ def run_case(chk, I, case, mline, where="generated"):
         why = oracle_rough(np, a, thr, none_ref, dtype)
         if why:
             chk.fail(f"C06 fails on find_local_peaks(refinement=None): {why}", small, str(none_ref)[:600])
+    extra_rough_oracles(chk, I, case, cms, a, rough, small, dtype)
     if p == 0 or (rough and rough[0] == "raise"):
         return
     refined = I.full(cms, thr, "integral", p)
@@ -451,6 +510,7 @@ def run_case(chk, I, case, mline, where="generated"):
                 chk.disagree("find_local_peaks(integral) points == Peaks.localPeaks (tol)", {**small, "peak": k},
                              [q[0], q[1]], [float(m[5][0]), float(m[5][1])])
                 break
+    extra_refined_oracles(chk, I, case, cms, a, refined, small, dtype)
     why, sigs = oracle_refine(np, a, rough, refined, p, dtype)
     if has_neg:
         chk.extra["excluded_region_cases"] = chk.extra.get("excluded_region_cases", 0) + 1
@@ -481,13 +541,123 @@ def half_refine_probe(chk, torch, fn, name):
     chk.extra.setdefault("out_of_domain", {})[f"{name}(integral) on half-precision maps"] = out
 
 
+def same_records(np, a2_of, recA, recB, p, dtype):
+    """two implementation outputs for the same peaks: fields exactly, points within the (conditioned) tolerance"""
+    if [(q[2], q[3], q[4]) for q in recA] != [(q[2], q[3], q[4]) for q in recB]:
+        return False
+    def finite(v):
+        return v == v and abs(v) != float("inf")
+
+    for qa, qb in zip(recA, recB):
+        if qa[0] == qb[0] and qa[1] == qb[1]:
+            continue
+        if p == 0:
+            return False
+        if not all(finite(v) for v in (qa[0], qa[1], qb[0], qb[1])):
+            # a zero / noise-level normaliser (inf or NaN coordinates): knife-edge, not compared
+            continue
+        a2 = a2_of(qa)
+        g = (round(qa[0]), round(qa[1])) if qa[0] == qa[0] and abs(qa[0]) < 1e6 and qa[1] == qa[1] and abs(qa[1]) < 1e6 else None
+        if g is None or not (0 <= g[0] < a2.shape[1] and 0 <= g[1] < a2.shape[0]):
+            if not (qa[0] != qa[0] and qb[0] != qb[0]):  # both NaN is fine (knife-edge)
+                return False
+            continue
+        # the rough cell is not available here; bound the conditioning by the worst over the cells within p/2 of the point
+        tol = 1e-3 if dtype in HALF else 0.0
+        for yy in range(max(0, g[1] - p), min(a2.shape[0], g[1] + p + 1)):
+            for xx in range(max(0, g[0] - p), min(a2.shape[1], g[0] + p + 1)):
+                P = patch_of(np, a2[None, None], 0, 0, xx, yy, p)
+                z, az = float(P.sum()), eff_abs_sum(np, P, a2, p)
+                tol = max(tol, float("inf") if abs(z) < 1e-3 * az else REFINE_TOL[dtype] * max(1.0, (p + 1) / 2 * az / abs(z)))
+        if not (abs(qa[0] - qb[0]) <= tol and abs(qa[1] - qb[1]) <= tol):
+            return False
+    return True
+
+
+def extra_rough_oracles(chk, I, case, cms, a, rough, small, dtype):
+    """implementation-level oracles on the rough detector (independent of the model), each on a fraction of the cases:
+    every map alone == its records in the batch; a non-contiguous view of the same tensor; refinement='<other string>';
+    default arguments"""
+    np, torch = I.np, I.torch
+    S, C, thr = case["S"], case["C"], case["thr"]
+    n = chk.evaluations
+    if rough and rough[0] in ("raise", "badshape"):
+        return
+    if S * C > 1 and n % 5 == 0:
+        chk.tag("oracle:alone==batch(rough)")
+        for s_ in range(S):
+            for c_ in range(C):
+                alone = I.rough(cms[s_:s_ + 1, c_:c_ + 1], thr)
+                want = [(q[0], q[1], q[2], 0, 0) for q in rough if q[3] == s_ and q[4] == c_]
+                if alone != want:
+                    chk.fail("C06: the peaks of one map depend on the other maps in the batch (find_local_peaks_rough)",
+                             {**small, "map": [s_, c_]}, {"in_batch": str(want)[:300], "alone": str(alone)[:300]})
+    if n % 6 == 1 and case["h"] * case["w"] > 1:
+        chk.tag("oracle:non-contiguous")
+        nc = cms.transpose(2, 3).contiguous().transpose(2, 3)
+        got = I.rough(nc, thr)
+        if nc.is_contiguous() and case["h"] > 1 and case["w"] > 1:
+            chk.tag("oracle:non-contiguous(view was contiguous)")
+        if got != rough:
+            chk.disagree("find_local_peaks_rough on a non-contiguous view == on the contiguous tensor", small, str(got)[:400], str(rough)[:400])
+            why = oracle_rough(np, a, thr, got, dtype)
+            if why:
+                chk.fail(f"C06 fails on find_local_peaks_rough (non-contiguous input): {why}", small, str(got)[:400], oracle_rough.sigs)
+    if n % 7 == 2:
+        chk.tag("oracle:refinement=other-string")
+        got = I.full(cms, thr, "local", 5)
+        if got != rough:
+            chk.disagree("find_local_peaks(refinement='local') == find_local_peaks_rough", small, str(got)[:400], str(rough)[:400])
+            why = oracle_rough(np, a, thr, got, dtype)
+            if why:
+                chk.fail(f"C06 fails on find_local_peaks(refinement='local'): {why}", small, str(got)[:400], oracle_rough.sigs)
+    if thr == 0.2 and dtype == "f32":
+        chk.tag("oracle:default-arguments")
+        r = call(I.pf.find_local_peaks_rough, cms)
+        got = ("raise",) + r[1:] if r[0] == "raise" else I.canon(r[1])
+        if got != rough:
+            chk.disagree("find_local_peaks_rough(cms) == find_local_peaks_rough(cms, threshold=0.2)", small, str(got)[:400], str(rough)[:400])
+        r = call(I.pf.find_local_peaks, cms)
+        got = ("raise",) + r[1:] if r[0] == "raise" else I.canon(r[1])
+        if got != rough:
+            chk.disagree("find_local_peaks(cms) == find_local_peaks_rough(cms, threshold=0.2)", small, str(got)[:400], str(rough)[:400])
+
+
+def extra_refined_oracles(chk, I, case, cms, a, refined, small, dtype):
+    """implementation-level oracles on the refined output: every map alone vs in the batch (points too); non-contiguous
+    view; default patch size"""
+    np = I.np
+    S, C, thr, p = case["S"], case["C"], case["thr"], patch_size(case)
+    n = chk.evaluations
+    if p < 2 or (refined and refined[0] in ("raise", "badshape")):
+        return
+    if S * C > 1 and n % 5 == 0:
+        chk.tag("oracle:alone==batch(refined)")
+        for s_ in range(S):
+            for c_ in range(C):
+                alone = I.full(cms[s_:s_ + 1, c_:c_ + 1], thr, "integral", p)
+                want = [(q[0], q[1], q[2], 0, 0) for q in refined if q[3] == s_ and q[4] == c_]
+                if (alone and alone[0] == "raise") or not same_records(np, lambda q: a[s_, c_], alone, want, p, dtype):
+                    chk.fail("C06: the refined peaks of one map depend on the other maps in the batch (find_local_peaks, integral)",
+                             {**small, "map": [s_, c_]}, {"in_batch": str(want)[:300], "alone": str(alone)[:300]})
+    if n % 6 == 1 and case["h"] * case["w"] > 1:
+        got = I.full(cms.transpose(2, 3).contiguous().transpose(2, 3), thr, "integral", p)
+        if (got and got[0] == "raise") or not same_records(np, lambda q: a[q[3], q[4]], got, refined, p, dtype):
+            chk.disagree("find_local_peaks(integral) on a non-contiguous view == on the contiguous tensor", small, str(got)[:400], str(refined)[:400])
+    if p == 5 and thr == 0.2 and dtype == "f32":
+        r = call(I.pf.find_local_peaks, cms, refinement="integral")
+        got = ("raise",) + r[1:] if r[0] == "raise" else I.canon(r[1])
+        if (got and got[0] == "raise") or not same_records(np, lambda q: a[q[3], q[4]], got, refined, p, dtype):
+            chk.disagree("find_local_peaks(cms, refinement='integral') == (threshold=0.2, integral_patch_size=5)", small, str(got)[:400], str(refined)[:400])
+
+
 def witness_case(w):
     h, wd = w["h"], w["w"]
-    m = [[0.0] * wd for _ in range(h)]
+    m = [[float(w.get("fill", 0.0))] * wd for _ in range(h)]
     for (x, y, v) in w["cells"]:
         m[y][x] = v
-    return {"S": 1, "C": 1, "h": h, "w": wd, "den": 1, "maps": [m], "thr": w["thr"], "p": w["patch"],
-            "kind": "witness", "shape": "witness"}
+    return {"S": 1, "C": 1, "h": h, "w": wd, "den": 1, "maps": [m], "thr": w["thr"], "p": w.get("patch", 0),
+            "dtype": w.get("dtype", "f32"), "kind": "witness", "shape": "witness"}
 
 
 def main(chk: Check):
@@ -502,6 +672,15 @@ def main(chk: Check):
     for ent in chk.known:
         case = witness_case(ent["witness"])
         cms = I.tensor(case)
+        if ent["signature"] in ("peak_below_pad_constant", "value_absorbs_pad_constant"):
+            got = I.rough(cms, case["thr"])
+            why = oracle_rough(np, I.exact(cms), case["thr"], got, case["dtype"])
+            if ent["signature"] == "peak_below_pad_constant":  # inside the model: it pads with -1e4 as the code does
+                m = parse_model(run_driver("C06.lean", [model_line(case, cms)])[0])
+                if got != [(float(x), float(y), v, s_, c_) for x, y, v, s_, c_, _ in m]:
+                    chk.disagree(f"{ent['id']} witness: implementation == model", ent["witness"], str(got), str(m))
+            chk.known_replay(ent["id"], still_fails=bool(why) and ent["signature"] in oracle_rough.sigs, detail=f"impl={got} {why}")
+            continue
         got = I.full(cms, case["thr"], "integral", ent["witness"]["patch"])
         rough = I.rough(cms, case["thr"])
         why, sigs = oracle_refine(np, I.exact(cms), rough, got, case["p"])
@@ -549,7 +728,32 @@ def main(chk: Check):
     for c, m in zip(cases, out):
         run_case(chk, I, c, m)
 
-    # ---- integral_regression alone (patch → offsets), incl. non-square use of xv / yv
+    # ---- EXCLUDED REGION (oracle only, no model line: the field model has no rounding): values so large that `v - 1e4`
+    #      rounds back to `v` in the map's dtype (float32 >= 2^38, float64 >= 2^67, +inf) — finding F-C06huge
+    for _ in range(chk.n(25, 250)):
+        dtype = rng.choice(["f32", "f32", "f64"])
+        h, w = rng.randrange(1, 6), rng.randrange(1, 6)
+        m = [[float(rng.randrange(0, 9)) / 8 for _ in range(w)] for _ in range(h)]
+        big = rng.choice([2.0 ** 38, 3e11, 1e12, 2.0 ** 40, float("inf"), 1e11, 2.0 ** 37] if dtype == "f32"
+                         else [2.0 ** 67, 1e21, float("inf"), 2.0 ** 66, 1e12])
+        for _k in range(rng.randrange(1, 3)):
+            m[rng.randrange(h)][rng.randrange(w)] = big
+        case = {"S": 1, "C": 1, "h": h, "w": w, "den": 1, "maps": [m], "thr": 0.125, "p": 0, "dtype": dtype,
+                "kind": "huge", "shape": "huge"}
+        cms = I.tensor(case)
+        got = I.rough(cms, 0.125)
+        chk.case(("huge", dtype, h, w, str(m)), None, tags=["kind:huge", f"dtype:{dtype}"])
+        chk.extra["excluded_region_huge_values"] = chk.extra.get("excluded_region_huge_values", 0) + 1
+        with np.errstate(all="ignore"):
+            why = oracle_rough(np, I.exact(cms), 0.125, got, dtype)
+        if why:
+            chk.fail(f"C06 fails on find_local_peaks_rough ({TORCH_DTYPE[dtype]} map with a value of {big}): {why}",
+                     {k: case[k] for k in ("S", "C", "h", "w", "den", "maps", "thr", "p", "dtype")}, str(got)[:300], oracle_rough.sigs)
+    # NaN cells: outside the property's domain (comparisons with NaN are false both ways); outcome recorded, not judged
+    nan_map = torch.tensor([[0.0, 0.0, 0.0], [0.0, 1.0, float("nan")], [0.0, 0.0, 0.0]]).reshape(1, 1, 3, 3)
+    chk.extra.setdefault("out_of_domain", {})["find_local_peaks_rough on a 3x3 map, centre 1.0 next to a NaN cell"] = str(I.rough(nan_map, 0.2))
+
+    # ---- integral_regression alone (square p x p patch → offsets)
     n_off = chk.n(300, 3000)
     pats, plines = [], []
     for _ in range(n_off):
@@ -607,11 +811,16 @@ if __name__ == "__main__":
         ],
         rule="S,C in 1..3, maps 1x1 / 1xN / Nx1 / up to 10x10 on the 1/8 or 1/16 lattice (few-level random fields = many ties, plateaus, "
              "sparse border/corner peaks, quantised Gaussian bumps, each with and without negative values; duplicate maps across slots), "
-             "7 thresholds incl. negative and -1e4, integral_patch_size 1..8 (odd and even) or none; distinct = distinct (shape, thr, patch, map bytes) with >= 1 peak; "
+             "7 thresholds incl. negative and -1e4, integral_patch_size 1..8 (odd and even) or none; 4 % maps of 11..24 cells per side, 5 % batches up to 5x5 maps, 6 % of float32/float64 cases with values around +-1e4 and thresholds down to -20000; distinct = distinct (shape, thr, patch, map bytes) with >= 1 peak; "
              "trivial = no peak; plus raw patches through integral_regression",
         assumptions=[
             "finite maps; threshold >= -1e4 (kornia's border constant); integral_patch_size 1..8: odd p reads cells, even p reads "
             "means of four cells (half-integer sampling), both modelled; p = 1 raises inside kornia (F-C06p1) where the model gives offset 0",
+            "value range: the field model has no rounding. Inside the domain: finite values with |v| < 2^38 (float32) / 2^67 (float64) "
+            "and thr >= -1e4. Sampled as EXCLUDED REGIONS with the oracle every run: thr < -1e4 with values around -1e4 (model still "
+            "compared: it pads with -1e4 like the code; failures = F-C06pad) and values whose v-1e4 rounds to v incl. +inf (oracle only; "
+            "failures = F-C06huge). NaN cells are outside the property (outcome recorded in out_of_domain). Empty dimensions are not "
+            "generated: S=0 returns empty, C=0/h=0/w=0 raise RuntimeError in reshape (observed by the auditor), the model returns []",
             "dtypes: maps in float64 / float32 / float16 / bfloat16; the model is dtype-agnostic (runs on the exact values): "
             "comparisons are exact in the map's own dtype, coordinates are float32 integers, values keep the map's dtype — "
             "checked exactly for the rough detector in all four dtypes; thresholds are dyadic except 0.2 with float32 maps",
